@@ -563,7 +563,12 @@ def _mk_time():
     m._passthrough = ("strftime", "gmtime", "localtime", "struct_time", "timezone", "tzname", "mktime", "asctime", "ctime")
     m.sleep = _vsleep
     m.monotonic = lambda: S.now / US
-    m.perf_counter = lambda: S.now / US
+    def _perf_counter():
+        # the library takes a time stamp exactly when it builds a communication-log entry: an observable at shim level
+        if S.cur is not None and S.cur.role[:1] in ("R", "S"):
+            S.emit("clock")
+        return S.now / US
+    m.perf_counter = _perf_counter
     m.time = lambda: 1_700_000_000 + S.now / US
     m.monotonic_ns = lambda: S.now * 1000
     m.perf_counter_ns = lambda: S.now * 1000
@@ -649,6 +654,9 @@ class VSerial:
 
     # -- device side
     def feed(self, data: bytes):
+        if not self.is_open:
+            return                      # nothing can arrive on a closed port
+        S.emit("feed", data=bytes(data).hex())
         self.inbox.extend(data)
 
     def inject_fault(self, exc):
